@@ -262,6 +262,23 @@ func (sg *sgen) stateLeaf() (node, bool) {
 	return n, true
 }
 
+// viaPointer: now and then a member of a container input is handed over through a pointer (a map value that is *[]int, a field
+// that is *map[string]any, an element that is *Rule): the member schema dereferences it, and whatever it does with the pointee is
+// seen by the digests of the input graph (the pointer cell, the pointee's cells).
+func viaPointer(g *storex.GraphGen, v any) any {
+	if v == nil || !g.R.Chance(12) {
+		return v
+	}
+	t := reflect.TypeOf(v)
+	switch t.Kind() {
+	case reflect.Ptr, reflect.Func, reflect.Chan:
+		return v
+	}
+	p := reflect.New(t)
+	p.Elem().Set(reflect.ValueOf(v))
+	return p.Interface()
+}
+
 // typedFrom turns []any / map[string]any whose members all have one Go type into the typed container (half the time).
 func typedSlice(g *storex.GraphGen, xs []any) any {
 	if len(xs) == 0 || !g.R.Chance(40) {
@@ -401,7 +418,7 @@ func (sg *sgen) container(d int, which int) (node, bool) {
 				if g.R.Chance(6) {
 					continue // a missing key (rejected unless the member is optional)
 				}
-				m[k] = kids[i].in(g)
+				m[k] = viaPointer(g, kids[i].in(g))
 			}
 			if mode != "strict" && g.R.Chance(60) {
 				m["zz"] = g.Value(reflect.TypeOf((*any)(nil)).Elem(), 2).Interface() // an unknown key
@@ -449,7 +466,7 @@ func (sg *sgen) container(d int, which int) (node, bool) {
 				if k.name == "Enum(a,b)" || k.name == "Literal(a)" {
 					key = hx.Pick(g.R, []string{"a", "b", "a", "b", "zz"})
 				}
-				m[key] = v.in(g)
+				m[key] = viaPointer(g, v.in(g))
 			}
 			if (k.name == "Enum(a,b)") && g.R.Chance(70) {
 				m["a"], m["b"] = v.in(g), v.in(g)
@@ -463,7 +480,7 @@ func (sg *sgen) container(d int, which int) (node, bool) {
 			n := g.R.Intn(4)
 			xs := make([]any, 0, n)
 			for i := 0; i < n; i++ {
-				xs = append(xs, e.in(g))
+				xs = append(xs, viaPointer(g, e.in(g)))
 			}
 			return typedSlice(g, spare(g, xs))
 		}}, true
@@ -503,7 +520,7 @@ func (sg *sgen) container(d int, which int) (node, bool) {
 		za, ok1 := zs(a.s)
 		zb, ok2 := zs(b.s)
 		in := func(g *storex.GraphGen) any {
-			xs := []any{a.in(g), b.in(g)}
+			xs := []any{viaPointer(g, a.in(g)), viaPointer(g, b.in(g))}
 			if g.R.Chance(30) {
 				xs = append(xs, b.in(g))
 			}
@@ -545,7 +562,7 @@ func (sg *sgen) container(d int, which int) (node, bool) {
 			m := map[any]any{}
 			n := g.R.Intn(4)
 			for i := 0; i < n; i++ {
-				m[k.in(g)] = v.in(g)
+				m[k.in(g)] = viaPointer(g, v.in(g))
 			}
 			if g.R.Chance(40) { // string-keyed representation
 				sm := map[string]any{}
@@ -597,7 +614,16 @@ func (sg *sgen) container(d int, which int) (node, bool) {
 				return v.Interface()
 			}
 		}
-		switch r.Intn(5) {
+		switch r.Intn(8) {
+		case 5:
+			return node{"Struct[Box]", "Struct", types.Struct[storex.Box](), false, in(storex.TBox)}, true
+		case 6:
+			return node{"Struct[Box](fields)", "Struct", types.Struct[storex.Box](core.StructSchema{"m": types.Record(types.String(), types.Any()).Optional(),
+				"s": types.Slice[int](types.Int()).Optional(), "rs": types.Slice[*storex.Rule](types.Any())}), false, in(storex.TBox)}, true
+		case 7:
+			return node{"Slice[*Rule](StructPtr[Rule])", "Slice[*Rule]", types.Slice[*storex.Rule](types.StructPtr[storex.Rule]()), false, func(g *storex.GraphGen) any {
+				return g.Value(reflect.TypeOf([]*storex.Rule{}), 3).Interface()
+			}}, true
 		case 0:
 			return node{"Struct[Rule]", "Struct", types.Struct[storex.Rule](), false, in(storex.TRule)}, true
 		case 1:
@@ -658,9 +684,9 @@ func (sg *sgen) container(d int, which int) (node, bool) {
 		})
 		return node{"DiscriminatedUnion(x:" + a.name + "|y:" + b.name + ")", "DiscriminatedUnion", s, a.ow || b.ow, func(g *storex.GraphGen) any {
 			if g.R.Bool() {
-				return map[string]any{"t": "x", "v": a.in(g), "zz": []any{1}}
+				return map[string]any{"t": "x", "v": viaPointer(g, a.in(g)), "zz": []any{1}}
 			}
-			return map[string]any{"t": "y", "v": b.in(g)}
+			return map[string]any{"t": "y", "v": viaPointer(g, b.in(g))}
 		}}, true
 	default: // Lazy
 		e := kid()
@@ -697,7 +723,7 @@ func (sg *sgen) objectOf(d int) node {
 	return node{fmt.Sprintf("Object/%v{%s}", map[bool]string{true: "loose", false: "strip"}[loose], name), "Object", s, ow, func(g *storex.GraphGen) any {
 		m := map[string]any{}
 		for i, k := range keys {
-			m[k] = kids[i].in(g)
+			m[k] = viaPointer(g, kids[i].in(g))
 		}
 		if g.R.Bool() {
 			m["zz"] = g.Value(reflect.TypeOf((*any)(nil)).Elem(), 2).Interface()
